@@ -342,6 +342,14 @@ fn deep_run(seed: u64, run: u64, shared: &world::KeyEntry<V512>) -> RunOutcome {
     out
 }
 
+const CROSS_BUILD_TAG: u64 = 1 << 55;
+
+/// seeds whose key pairs are compared between the main build and the instrumented build
+fn cross_build_seeds(seed: u64) -> Vec<(usize, [u8; 32])> {
+    let mut rng = Prng::new(report::run_seed(seed, "C15crossbuild", 0));
+    vec![(512, rng.seed32()), (512, rng.seed32()), (1024, rng.seed32())]
+}
+
 /// entry of the deep binary: `falcon-sim deepruns C15 <tier> <seed> <outfile>`
 pub fn deepruns_main(tier: Tier, seed: u64, outfile: &str) -> i32 {
     let w = report::workers();
@@ -360,6 +368,14 @@ pub fn deepruns_main(tier: Tier, seed: u64, outfile: &str) -> i32 {
             replay: json!({"kind": "rerun"}),
             run: (1 << 41) + 100 + run,
         });
+    }
+    // this build differs from the main one in optimisation level and in debug assertions (on here): the key
+    // pairs of a few fixed seeds are handed to the main build, which compares them with its own
+    for (i, (n, sd)) in cross_build_seeds(seed).iter().enumerate() {
+        let d = crate::isolate::isolated(|| if *n == 512 { key_hashes::<V512>(*sd) } else { key_hashes::<V1024>(*sd) }, crate::isolate::run_timeout_s());
+        if let Ok(d) = d {
+            out.stats.blobs.push((CROSS_BUILD_TAG | i as u64, d));
+        }
     }
     match std::fs::write(outfile, out.to_bytes()) {
         Ok(_) => 0,
@@ -475,6 +491,9 @@ fn fresh(n: usize, seed: &[u8; 32]) -> Result<(Vec<u8>, Vec<u8>), String> {
 }
 
 fn gen_here(n: usize, seed: [u8; 32]) -> Result<(Vec<u8>, Vec<u8>), String> {
+    // clock faults (T2): every look at a clock during this key generation may find that time has jumped;
+    // the reference generation in a fresh process runs on an undisturbed clock
+    let _clock = crate::simclock::enable(hash_bytes(0x7c10c, &seed));
     if n == 512 {
         world::keygen_sim::<V512>(seed, None, None).0.map(|(sk, pk)| (V512::sk_to_bytes(&sk), V512::pk_to_bytes(&pk))).map_err(|u| u.signature())
     } else {
@@ -608,6 +627,8 @@ fn history_seeds(seed: u64, n: usize, count: usize) -> Vec<[u8; 32]> {
 fn history_here<V: Variant>(seeds: &[[u8; 32]]) -> Vec<u8> {
     let mut out = Vec::with_capacity(16 * seeds.len());
     for (i, s) in seeds.iter().enumerate() {
+        // every other generation of the history under clock faults (T2)
+        let _clock = if i % 2 == 1 { Some(crate::simclock::enable(hash_bytes(0x7c10c, s))) } else { None };
         match world::keygen_sim_route::<V>(*s, None, None, 1).0 {
             Ok((sk, pk)) => {
                 out.extend_from_slice(&hash_bytes(0, &V::sk_to_bytes(&sk)).to_le_bytes());
@@ -781,6 +802,21 @@ pub fn replay(doc: &Value) -> Option<String> {
             }
         }
         "long-history" => replay_long_history(doc),
+        "cross-build" => {
+            let n = doc.get("n")?.as_u64()? as usize;
+            let sd: [u8; 32] = unhex(doc.get("seed_hex")?.as_str()?)?.try_into().ok()?;
+            let other = unhex(doc.get("other_build_digest_hex")?.as_str()?)?;
+            let mine = if n == 512 { key_hashes::<V512>(sd) } else { key_hashes::<V1024>(sd) };
+            if cfg!(feature = "deep") {
+                // replayed by the instrumented build itself: nothing to compare with
+                return None;
+            }
+            if mine != other {
+                Some(format!("keygen{} returned different key pairs for the same seed", n))
+            } else {
+                None
+            }
+        }
         "mixed-keygen" => {
             let seq: Vec<(usize, [u8; 32])> = doc
                 .get("seq")?
@@ -944,7 +980,41 @@ pub fn check(tier: Tier, seed: u64) -> i32 {
     }
     // deep batch: keygen with concurrent signers under function-entry pre-emption
     match crate::props::run_deep_batch(PROP, tier, seed) {
-        Ok(Some(o)) => rep.absorb(o),
+        Ok(Some(o)) => {
+            rep.absorb(o);
+            // the same seeds in this build (optimised, no debug assertions) and in the instrumented one
+            // (unoptimised, debug assertions on): a key pair depends on nothing but the seed
+            let (theirs, rest): (Vec<_>, Vec<_>) = std::mem::take(&mut rep.stats.blobs).into_iter().partition(|(t, _)| *t >= CROSS_BUILD_TAG && *t < CROSS_BUILD_TAG + 16);
+            rep.stats.blobs = rest;
+            let seeds = cross_build_seeds(seed);
+            let items: Vec<u64> = (0..seeds.len() as u64).collect();
+            let job = |i: u64| -> Vec<u8> {
+                let (n, sd) = seeds[i as usize];
+                if n == 512 {
+                    key_hashes::<V512>(sd)
+                } else {
+                    key_hashes::<V1024>(sd)
+                }
+            };
+            let ours = crate::isolate::fork_map(&items, w, None, &job);
+            for (t, d) in theirs {
+                let i = (t - CROSS_BUILD_TAG) as usize;
+                rep.stats.inc("fault.B3_other_build_profile");
+                rep.stats.evaluations += 1;
+                if let Some(Ok(mine)) = ours.get(&(i as u64)) {
+                    if !mine.is_empty() && !d.is_empty() && *mine != d {
+                        let (n, sd) = seeds[i];
+                        rep.violations.push(Violation {
+                            property: PROP,
+                            class: format!("keygen{} returned different key pairs for the same seed", n),
+                            detail: format!("seed {}: this build (optimised, debug assertions off) and the instrumented build (unoptimised, debug assertions on) disagree", hex(&sd)),
+                            replay: json!({"kind": "cross-build", "n": n, "seed_hex": hex(&sd), "other_build_digest_hex": hex(&d)}),
+                            run: (1 << 41) + 30 + i as u64,
+                        });
+                    }
+                }
+            }
+        }
         Ok(None) => {
             rep.stats.notes.insert("NOTE: no instrumented (deep) build available; the deep keygen batch was skipped".into());
         }
@@ -969,7 +1039,7 @@ pub fn check(tier: Tier, seed: u64) -> i32 {
         let o = neighbourhood::<V1024>(r.seed32(), w);
         rep.absorb(o);
     }
-    rep.rule = "a case is one keygen(seed) call: (i) inside a seeded multi-thread plan where every seed occurs 2-3 times on the same or different baton-scheduled threads (pre-emption at the draws of keygen's seed-expanded stream and of concurrent sign calls), with or without a simulator stream installed behind the ambient seam, plus once in a fresh child process; (i') the same in a deep batch (instrumented build: pre-emption at function entries, so also between two loads of shared state inside the sampler); (ii) in a sequence of keygens on one thread - mixed variants and unrelated seeds, or one variant and related seeds (a base seed, four single-bit neighbours, a seed sharing its first 24 bytes, one sharing its last 24 bytes, the base again) - each compared with a fresh process; (ii') in a long single-thread history (72 Falcon-512 / 34 Falcon-1024 pairs in quick, 400 / 160 in thorough) through SecretKey::generate_from_seed + PublicKey::from_secret_key with a sign call now and then, each pair compared with keygen(seed) in a fresh process; (iii) three times in fresh processes for five edge seeds per variant (all zero, all ones, a single 01 byte first or last, 55..55) and for the seeds that need the most ntru_gen attempts (adaptively chosen from the neighbourhoods, and pinned in corpus/C15/hard-seeds.txt); (iv) on one of the 256 single-bit neighbours of a sampled base seed (the neighbourhood of each sampled base seed is enumerated completely; base seeds are sampled). Non-trivial for (i): the call was pre-empted mid-call; for (ii): every neighbour. Distinct = distinct (schedule trace, thread, seed) resp. distinct key pairs".into();
+    rep.rule = "a case is one keygen(seed) call: (i) inside a seeded multi-thread plan where every seed occurs 2-3 times on the same or different baton-scheduled threads (pre-emption at the draws of keygen's seed-expanded stream and of concurrent sign calls), with or without a simulator stream installed behind the ambient seam, plus once in a fresh child process; (i'') for three seeds, in this build and in the instrumented build (unoptimised, debug assertions on); (i') the same in a deep batch (instrumented build: pre-emption at function entries, so also between two loads of shared state inside the sampler); (ii) in a sequence of keygens on one thread - mixed variants and unrelated seeds, or one variant and related seeds (a base seed, four single-bit neighbours, a seed sharing its first 24 bytes, one sharing its last 24 bytes, the base again) - each compared with a fresh process; (in both kinds of sequence every look the code takes at a clock may find that 61 s, 10 min or 2 h have passed - fault T2, through the harness's own clock_gettime; the reference generation runs on an undisturbed clock); (ii') in a long single-thread history (72 Falcon-512 / 34 Falcon-1024 pairs in quick, 400 / 160 in thorough) through SecretKey::generate_from_seed + PublicKey::from_secret_key with a sign call now and then, each pair compared with keygen(seed) in a fresh process; (iii) three times in fresh processes for five edge seeds per variant (all zero, all ones, a single 01 byte first or last, 55..55) and for the seeds that need the most ntru_gen attempts (adaptively chosen from the neighbourhoods, and pinned in corpus/C15/hard-seeds.txt); (iv) on one of the 256 single-bit neighbours of a sampled base seed (the neighbourhood of each sampled base seed is enumerated completely; base seeds are sampled). Non-trivial for (i): the call was pre-empted mid-call; for (ii): every neighbour. Distinct = distinct (schedule trace, thread, seed) resp. distinct key pairs".into();
     rep.assumptions = vec![
         "keygen is stopped after 3000 ntru_gen attempts' worth of draws (bounded liveness; a correct tree needs 13 resp. 24 attempts on average)".into(),
         "an ambient-entropy draw inside keygen is recorded as a probe, not an alarm; only differing key bytes are".into(),
